@@ -138,6 +138,11 @@ func (w *KafkaWriter) writingLoop() {
 		verifhook.Point("evw.w.select")
 		select {
 		case <-w.batchingLoopDoneCh:
+			// the batching loop is done, nothing more will be buffered:
+			// flush what is still in the buffer before exiting
+			for w.messageBuffer.Length() > 0 {
+				w.writeMessages(w.messageBuffer.PopMultiple(100))
+			}
 			verifhook.Point("evw.w.exit")
 			w.runningWorkers.Done()
 			return
@@ -149,15 +154,19 @@ func (w *KafkaWriter) writingLoop() {
 				continue
 			}
 
-			metric := w.newMetric(KAFKAWRITER)
-			metric.AddValue("messages_sent", len(messagesToSend))
-			metric.AddValue("messages_failed", 0)
-
-			w.writeFunction(messagesToSend, &metric)
-
-			monitoring.Send(metric)
+			w.writeMessages(messagesToSend)
 		}
 	}
+}
+
+func (w *KafkaWriter) writeMessages(messagesToSend []kafka.Message) {
+	metric := w.newMetric(KAFKAWRITER)
+	metric.AddValue("messages_sent", len(messagesToSend))
+	metric.AddValue("messages_failed", 0)
+
+	w.writeFunction(messagesToSend, &metric)
+
+	monitoring.Send(metric)
 }
 
 func (w *KafkaWriter) batchingLoop() {
